@@ -48,8 +48,10 @@ Qed.
 
 (* the hypothesis [live] is satisfiable in a reachable state: fd 1 registered for
    reading becomes readable while the selector is blocked in select *)
+From Coq Require Import ZArith String.
 From TV Require Import Lib.Obs C40.Run C40.Proofs3 C40.Proofs4.
-Example ex_live_reachable : exists s, reachable s /\ live KR 1 s /\ dist KR 1 s = 7.
+Local Open Scope string_scope.
+Example ex_live_reachable : exists s, reachable s /\ live KR 1 s /\ dist KR 1 s = 9.
 Proof.
   destruct (steps init (tr_rest ++ [(TEnv, EnvR 1 true)])) as [s|] eqn:E; [|vm_compute in E; discriminate].
   exists s. split; [eexists; exact E|].
@@ -72,3 +74,46 @@ Proof.
   exists s. split; [eexists; exact E|].
   vm_compute in E. inversion E; subst. simpl. repeat split; try reflexivity. discriminate.
 Qed.
+
+(* ---------- the EBADF recovery path ---------- *)
+Lemma select_error_recovers : forall s, reachable s -> sp s = SErr ->
+  0 < waker s /\ exists s', step s (TSel, WakerPoll true) = Some s' /\ sp s' = SGot [] [].
+Proof.
+  intros s R E. pose proof (I_err s (reachable_inv s R) E) as W. split; [exact W|].
+  unfold step. simpl. rewrite E. apply Nat.ltb_lt in W. rewrite W. eexists. split; reflexivity.
+Qed.
+
+Lemma closed_fd_in_snapshot : forall s, reachable s ->
+  has_dead s (readers s, writers s) = false /\
+  (forall a, in_flight s = Some a -> has_dead s a = true -> 0 < waker s).
+Proof. intros s R. pose proof (reachable_inv s R) as I. split; [apply (I_nodead s I)|apply (I_dead s I)]. Qed.
+
+(* fd 2 is in the snapshot, then removed and closed before the selector reaches select():
+   select fails, the waker poll succeeds, an empty report is posted, the next round works *)
+Definition tr_ebadf : list event :=
+  [ (TLoop, Add KR 0); (TLoop, WakerSend); (TLoop, Add KR 1); (TLoop, WakerSend); (TLoop, Add KR 2); (TLoop, WakerSend);
+    (TLoop, ThreadStart); (TLoop, StartSelect); (TLoop, Acquire); (TLoop, Notify); (TLoop, Release);
+    (TSel, Acquire); (TSel, Release);
+    (TLoop, Remove KR 2); (TLoop, WakerSend); (TLoop, CloseFd 2);
+    (TSel, SelectCall [0; 1; 2] []); (TSel, SelectErr) ].
+Definition tr_ebadf2 : list event :=
+  tr_ebadf ++ [ (TSel, WakerPoll true); (TSel, Post [] []); (TLoop, HandleEnter [] []); (TLoop, StartSelect);
+                (TLoop, Acquire); (TLoop, Notify); (TLoop, Release); (TSel, Acquire); (TSel, Release);
+                (TSel, SelectCall [0; 1] []); (TEnv, EnvR 1 true); (TSel, SelectRet [0; 1] [] []); (TSel, Post [0; 1] []);
+                (TLoop, HandleEnter [0; 1] []); (TLoop, WakerRecv 4); (TLoop, Callback KR 1) ].
+
+Example ex_select_error_reachable : exists s, reachable s /\ sp s = SErr.
+Proof.
+  destruct (steps init tr_ebadf) as [s|] eqn:E; [|vm_compute in E; discriminate].
+  exists s. split; [eexists; exact E|]. vm_compute in E. inversion E; subst. reflexivity.
+Qed.
+
+Example ex_ebadf_recovery_accepted : exists s, replay init 0 (as_case tr_ebadf2) = Accepted s.
+Proof. eexists. vm_compute. reflexivity. Qed.
+
+(* the seeded change C40_3 (`continue` instead of reporting): the selector goes back to the
+   condition variable without a report — not a run of the model *)
+Example ex_reject_continue_after_ebadf :
+  run_case (as_case (tr_ebadf ++ [(TSel, WakerPoll true); (TSel, Acquire)]))
+  = OList [OTag "rejected"; OInt 19%Z; OTag "step-not-enabled"].
+Proof. vm_compute. reflexivity. Qed.
